@@ -403,6 +403,12 @@ FAMILY_CFGS = [
     dict(sizes=[2, 2], monos=[1, 1], range_dom=[[0, 1]]), dict(sizes=[3, 2], monos=[1, 1], range_dom=[[0, 1]]),
     dict(sizes=[2, 2], joint_mono=[[0, 1]]), dict(sizes=[3, 3], joint_mono=[[0, 1]]),
     dict(sizes=[2, 2, 2], monos=[1, 1, 0], mono_dom=[[0, 1]], joint_mono=[[1, 2]]),
+    # unequal sizes along the two features of a pair (group existence guards index the right dimension)
+    dict(sizes=[2, 3], monos=[1, 1], mono_dom=[[0, 1]]), dict(sizes=[3, 2], monos=[1, 1], mono_dom=[[0, 1]]),
+    dict(sizes=[2, 4], monos=[1, 1], mono_dom=[[1, 0]]),
+    dict(sizes=[2, 3], joint_mono=[[0, 1]]), dict(sizes=[3, 2], joint_mono=[[0, 1]]),
+    dict(sizes=[2, 3], monos=[1, 0], ew=[[0, 1, 1]]), dict(sizes=[3, 2], monos=[1, 0], ew=[[0, 1, -1]]),
+    dict(sizes=[2, 3], monos=[1, 1], range_dom=[[1, 0]]),
 ]
 
 
